@@ -640,7 +640,10 @@ def _wrap_rule_assert():
         except Exception as e:  # a crashing judge must never look like a pass
             HUB.acc.mark_inconclusive(f"judge_module_rule crashed: {type(e).__name__}: {e}")
         if exc is not None:
-            raise exc
+            try:
+                raise exc
+            finally:
+                exc = None  # no frame <-> traceback cycle: the architecture must be able to die with its last user
 
     assert_applies._pta_orig = orig
     Rule.assert_applies = assert_applies
